@@ -733,7 +733,9 @@ def ignore_specs(sh, tier):
     if tier == 'quick':
         keep = [s for s in specs if len(s) == 1] + [s for s in specs if len(s) == 2][:4] + [s for s in specs if len(s) == 3][:1]
         return keep
-    return specs
+    # thorough: every specification of one or two elements, and a spread of the three-element ones
+    three = [s for s in specs if len(s) == 3]
+    return [s for s in specs if len(s) <= 2] + three[::max(1, len(three) // 4)][:4]
 
 
 KEYMAPS_Q = ('raw', 'rawsent', 'str', 'strflat', 'picklenf', 'md5nf', 'pyhash')
@@ -788,8 +790,10 @@ def plan(prop, tier):
         add(quick_shapes()[2], 'raw', canary=True)
     elif prop == 'C11':
         for sh in shapes:
+            if not q and sh['nkwo'] > 1:
+                continue          # thorough: shapes with at most one keyword-only parameter (the ignore machinery treats them alike)
             for spec in ignore_specs(sh, tier):
-                for km in (('raw', 'strflat') if q else ('raw', 'rawsent', 'rawnf', 'strflat', 'md5')):
+                for km in (('raw', 'strflat') if q else ('raw', 'rawnf', 'strflat', 'md5')):
                     if km in ('raw', 'strflat', 'md5') and sh['varargs']:
                         km = 'rawsent'     # flat without sentinel + *args is not information-preserving (C10)
                     add(sh, km, ignore=list(spec), endtoend=(km in ('raw', 'rawsent')))
@@ -814,9 +818,11 @@ def plan(prop, tier):
         add(quick_shapes()[2], 'raw', ignore=['b'], canary=True)
     elif prop == 'C17':
         for sh in shapes:
+            if not q and sh['nkwo'] > 1:
+                continue
             specs = [()] + list(ignore_specs(sh, tier))
             for spec in specs:
-                for km in (('raw', 'str', 'strflat', 'picklenf', 'md5nf') if q else ('raw', 'rawsent', 'str', 'strflat', 'pickle', 'picklenf', 'md5', 'md5nf')):
+                for km in (('raw', 'str', 'strflat', 'picklenf', 'md5nf') if q else ('raw', 'str', 'strflat', 'pickle', 'picklenf', 'md5nf')):
                     add(sh, km, ignore=list(spec))
             if sh['npos'] or sh['nkwo']:
                 for km in (('str', 'strflat', 'md5', 'rawtyped') if q else ('raw', 'rawtyped', 'rawsent', 'str', 'strflat', 'strtyped', 'pickle', 'picklenf', 'md5', 'md5nf')):
